@@ -57,6 +57,8 @@ type genState struct {
 	faults  int
 	ops     []string
 
+	resetsLeft, resetEvery int
+
 	afterSchedule func()
 }
 
@@ -98,6 +100,24 @@ func (g *genState) next() string {
 		kinds = "BR"
 	}
 	k := string(kinds[r.Intn(len(kinds))])
+	if g.resetsLeft > 0 && r.Intn(g.resetEvery) == 0 {
+		// abort the cycle (results may still sit in the cache) and start another one elsewhere
+		g.resetsLeft--
+		g.faults++
+		if d := e.lastDump; d != nil && len(d.Cache) > 0 {
+			e.dist["reset-with-cached-results"]++
+		}
+		org := int(e.p.origin) + r.Range(-4, 6)
+		if org < 0 || r.Chance(10) {
+			org = r.Intn(50)
+		}
+		mode := e.p.mode
+		if r.Chance(25) {
+			mode = 1 + r.Intn(2)
+		}
+		g.pos, g.stuck = 0, false
+		return fmt.Sprintf("Z %d %d %d %d %d", r.U64()%1000000007, r.Range(10, 150), org, mode, []int{0, 10, 30, 60}[r.Intn(4)])
+	}
 	w := []int{10, 30, 32, 5, 3, 3, 12}
 	if d := e.lastDump; d != nil {
 		qlen, npend := d.PendingBlocks, len(d.BlockPend)
@@ -341,8 +361,13 @@ func run(c *vh.Ctx) error {
 		if err != nil {
 			return err
 		}
-		g := &genState{r: r, e: e, peers: r.Range(1, 5)}
+		g := &genState{r: r, e: e, peers: r.Range(1, 5), resetEvery: 1}
 		budget := p.n*r.Range(1, 3) + 40
+		if r.Chance(40) {
+			g.resetsLeft = r.Range(1, 3)
+			g.resetEvery = budget/(g.resetsLeft+1) + 1
+			budget += 150 * g.resetsLeft
+		}
 		var fl *failure
 		for i := 0; i < budget && fl == nil; i++ {
 			op := g.next()
@@ -355,9 +380,9 @@ func run(c *vh.Ctx) error {
 		}
 		if fl == nil && p.disciplined {
 			// schedule whatever is left of the honest chain, then drain with an honest peer
-			for g.pos < u.n && !g.stuck && fl == nil {
+			for g.pos < e.u.n && !g.stuck && fl == nil {
 				hi := []int{}
-				for i := 0; i < 64 && g.pos+i < u.n; i++ {
+				for i := 0; i < 64 && g.pos+i < e.u.n; i++ {
 					hi = append(hi, g.pos+i)
 				}
 				op := fmt.Sprintf("S * %s", strings.Join(strs(hi), " "))
@@ -372,8 +397,8 @@ func run(c *vh.Ctx) error {
 			if fl == nil {
 				fl = e.drain("99", r.Range(1, 9), func(op string) { g.ops = append(g.ops, op) })
 			}
-			if fl == nil && !g.stuck && len(e.returned) != u.n && g.pos >= u.n {
-				fl = &failure{"oracle", fmt.Sprintf("after the honest drain %d of %d blocks were handed to the importer", len(e.returned), u.n), e.nOps}
+			if fl == nil && !g.stuck && len(e.returned) != e.u.n && g.pos >= e.u.n {
+				fl = &failure{"oracle", fmt.Sprintf("after the honest drain %d of %d blocks were handed to the importer", len(e.returned), e.u.n), e.nOps}
 			}
 		}
 		totalOps += e.nOps
@@ -386,6 +411,9 @@ func run(c *vh.Ctx) error {
 		res.Dist(fmt.Sprintf("cacheLen-%d", p.cacheLen))
 		if !p.disciplined {
 			res.Dist("undisciplined-from")
+		}
+		if e.epochs > 0 {
+			res.Dist("scripts-with-resets")
 		}
 		if p.cacheMem < 1<<20 {
 			res.Dist("memory-capped-window")
